@@ -294,17 +294,29 @@ theorem C14_options_handed_to_handler (fx fm : Bool) (nv nc : Nat) (pol : Policy
 /-- `m\n\nOptions\n5\n1\n1\n0\n0\n0\n0\n0\n0\n0\n`: a valid file with 5 AMPL options -/
 def fiveOpts : Bytes := [109, 10, 10, 79, 112, 116, 105, 111, 110, 115, 10, 53, 10, 49, 10, 49, 10, 48, 10, 48, 10, 48, 10, 48, 10, 48, 10, 48, 10, 48, 10]
 
-/-- **A receiving array of `MAX_AMPL_OPTIONS = 9` is too small** (the C API's `AMPLOptions_C::options_`, filled by `std::copy` of the whole list in
-`NLW2_SOLHandler_C_Impl::OnAMPLOptions`): a valid file with 5 options is read OK and hands 10 values to the handler; the bound 14 of the previous theorem is attained with 9 options. -/
-theorem C14_counterexample_c_api_options_array :
+/-- **A receiving array of 9 entries is too small** (history: the C API's `AMPLOptions_C::options_[MAX_AMPL_OPTIONS]` before f8d8c0f, filled by `std::copy` of the
+whole list in `NLW2_SOLHandler_C_Impl::OnAMPLOptions`): a valid file with 5 options is read OK and hands 10 values to the handler; the bound 14 of the previous
+theorem is attained with 9 options, so no capacity below 14 is enough. -/
+theorem C14_history_counterexample_c_api_options_array :
     (readSol true true 0 0 readAll fiveOpts) = ⟨.ok, [.msg [109, 10] 0, .options [5, 1, 1, 0, 0, 0, 0, 0, 0, 0] false []], false⟩ ∧
     ([5, 1, 1, 0, 0, 0, 0, 0, 0, 0] : List Int).length > 9 ∧
     (∃ o r, optsText (str "9\n1\n1\n1\n1\n1\n1\n1\n1\n1\n0\n0\n0\n0\n") = .ok (o, r) ∧ o.opts.length = 14) := by
   refine ⟨by decide, by decide, ⟨[9, 1, 1, 1, 1, 1, 1, 1, 1, 1, 0, 0, 0, 0], 9, false, []⟩, [], by rfl, rfl⟩
 
-/-- the capacity of the C struct as it is in the tree under test (regenerated from sol-handler-c.h on every run): either the unsafe 9 — the open finding
-`C14-c-api-ampl-options-overflow` — or at least the 14 that `C14_options_handed_to_handler` shows to be sufficient (repo_patches/C14-c-api-ampl-options-overflow.diff) -/
-theorem C14_gen_c_api_capacity : MpVerif.Gen.SolGuards.c_api_options_capacity = 9 ∨ 14 ≤ MpVerif.Gen.SolGuards.c_api_options_capacity := by decide
+/-- the capacity of the C struct as it is in the tree under test (`long options_[…]` in sol-handler-c.h with the macros of nl-header-c.h, regenerated on every run)
+is at least the 14 values the reader can hand over.  With the capacity of 9 that the tree had before f8d8c0f this statement is false and the proof stage fails. -/
+theorem C14_gen_c_api_capacity : 14 ≤ MpVerif.Gen.SolGuards.c_api_options_capacity := by decide
+
+/-- **The C API copy stays inside its array.**  Every options block the reader delivers — any file, format, declared size, handler — fits
+`AMPLOptions_C::options_` of the tree under test, so `std::copy(ao.options_.begin(), ao.options_.end(), ao_c.options_)` in
+`NLW2_SOLHandler_C_Impl::OnAMPLOptions` writes `opts.length ≤ capacity` entries and `n_options_ = opts.length` describes the stored values exactly. -/
+theorem C14_c_api_options_fit (fx fm : Bool) (nv nc : Nat) (pol : Policy) (bytes : Bytes) (hs : SanePol pol) :
+    ∀ e ∈ (readSol fx fm nv nc pol bytes).evs, ∀ opts vb t, e = .options opts vb t →
+      opts.length ≤ MpVerif.Gen.SolGuards.c_api_options_capacity := by
+  intro e he opts vb t h
+  have h1 := (C14_options_handed_to_handler fx fm nv nc pol bytes hs e he opts vb t h).2
+  have h2 := C14_gen_c_api_capacity
+  omega
 
 /-- … and every later use of the options (`z[1]`, `z[3]`) reads an entry that was stored -/
 theorem C14_options_index_in_bounds (inp r : Bytes) (o : Opts) (L : Nat)
